@@ -1,8 +1,73 @@
 """check C01: parse() is total and returns a well-formed tree (partial)."""
 import sys
 
-from contracts import c01
-from pyvc import check, vx
+import ast
+
+from contracts import c01, c01_stack
+from pyvc import check, effects, loader, vx
+
+
+def stack_side_conditions(rep):
+    """syntactic frame conditions the stack contracts rest on, from the real source"""
+    infos = effects.analyze({"parser_stack"})
+    idx = effects.simple_name_index(infos)
+    contracted = {"_parser_push", "_parser_pop", "close_begline_lists", "process_text", "parse_encoded",
+                  "table_check_attrs", "table_row_check_attrs", "_parser_have", "_parser_merge_str_children"} \
+        | set(c01_stack.HANDLERS) | set(c01_stack.ASSUMED_OTHER)
+    seeds = {k for k, v in infos.items() if v.writes} | {"parser:parse_encoded"}
+    reach = set(seeds)
+    changed = True
+    while changed:
+        changed = False
+        names = {infos[k].qual.rsplit(".", 1)[-1] for k in reach}
+        for k, fi in infos.items():
+            if k not in reach and fi.calls & names:
+                reach.add(k)
+                changed = True
+    # (1) every function of parser.py that can reach a write of the node stack is under the stack contract
+    #     (node constructors excepted: they are modelled, and only collide by name with Wtp.__init__)
+    missing = sorted(k for k in reach if k.startswith("parser:") and not k.endswith(".__init__")
+                     and k.split(":")[1] not in contracted)
+    rep.add_obligation("parser#frame#every-function-that-can-reach-the-node-stack-has-the-stack-contract", "frame",
+                       "proved" if not missing else "refuted", "syntactic", detail=str(missing)[:200])
+    # (2) inside those functions every call by name that can reach the node stack is a call of a contracted function
+    bad = []
+    for k in sorted(reach):
+        if not k.startswith("parser:") or k.endswith(".__init__"):
+            continue
+        for n in sorted(infos[k].calls):
+            if n in contracted or n == "__init__":
+                continue
+            if any(c in reach for c in idx.get(n, [])):
+                bad.append(f"{k} calls {n}")
+    rep.add_obligation("parser#frame#calls-that-can-reach-the-node-stack-go-to-contracted-functions", "frame",
+                       "proved" if not bad else "refuted", "syntactic", detail=str(bad)[:200])
+    # (3) the only non-name callables called there are tokenops[...] in process_text, and every value ever stored
+    #     in tokenops is a token handler under the stack contract
+    opaque = sorted((k, c) for k in reach if k.startswith("parser:") for c in infos[k].opaque_calls
+                    if not (k == "parser:process_text" and c.startswith("tokenops[")))
+    rep.add_obligation("parser#frame#no-other-indirect-calls-in-stack-functions", "frame",
+                       "proved" if not opaque else "refuted", "syntactic", detail=str(opaque)[:200])
+    mod = loader.module("parser")
+    vals, odd = set(), []
+    for st in mod.tree.body:
+        tgt = None
+        if isinstance(st, (ast.Assign, ast.AnnAssign)):
+            t0 = st.targets[0] if isinstance(st, ast.Assign) else st.target
+            if isinstance(t0, ast.Name) and t0.id == "tokenops" and isinstance(st.value, ast.Dict):
+                for v in st.value.values:
+                    (vals.add(v.id) if isinstance(v, ast.Name) else odd.append(loader.norm(v)))
+                continue
+        for n in ast.walk(st):
+            if isinstance(n, ast.Assign) and isinstance(n.targets[0], ast.Subscript) and \
+                    isinstance(n.targets[0].value, ast.Name) and n.targets[0].value.id == "tokenops":
+                (vals.add(n.value.id) if isinstance(n.value, ast.Name) else odd.append(loader.norm(n.value)))
+            elif isinstance(n, ast.Call) and isinstance(n.func, ast.Attribute) and isinstance(n.func.value, ast.Name) \
+                    and n.func.value.id == "tokenops" and n.func.attr in effects.MUTATORS:
+                odd.append(loader.norm(n))
+    stray = sorted(vals - set(c01_stack.HANDLERS)) + odd
+    rep.add_obligation("parser#frame#tokenops-holds-only-contracted-token-handlers", "frame",
+                       "proved" if vals and not stray else "refuted", "syntactic", detail=str(stray)[:200])
 
 
 def main(tier):
@@ -13,6 +78,15 @@ def main(tier):
         reg.add(c)
     c01.setup_registry(reg)
     rep.add_static(check.run_contracts(cs, reg, 20000 if tier == "quick" else 120000))
+    # stack discipline of the token handlers (own registry: the same functions carry a second contract here)
+    reg2 = vx.Registry()
+    cs2 = c01_stack.contracts()
+    for c in cs2:
+        reg2.add(c)
+    c01_stack.setup_registry(reg2)
+    rep.add_static(check.run_contracts(cs2, reg2, 20000 if tier == "quick" else 120000))
+    stack_side_conditions(rep)
+    cs = cs + cs2
     try:
         rep.bounded = check.run_repo_py("bounded/c01_run.py", {"tier": tier, "seed": rep.seed}, timeout=12000)
     except Exception as ex:
@@ -24,10 +98,28 @@ def main(tier):
         "append -- the loop invariant 'no empty string, no two adjacent strings, ends with a node or is empty' is "
         "preserved and the list assigned to node.children is well-formed (z3, given that _finalize_expand returns a "
         "str). The int() conversion in TemplateNode.template_parameters is covered by C05's guard lemma. "
-        "NOT proved: that the ~35 token handlers never raise and keep the stack floor (they interlock through "
-        "recursion and mode flags); the tokenizer regexes. "
+        "_parser_push: the new node becomes the last child of the old top and the new top, after pending strings were "
+        "finalized. STACK DISCIPLINE (contracts/c01_stack.py; ghost view of ctx.parser_stack as a string with one "
+        "character per node = its kind, pyvc/pnodes.py): every function of parser.py that can reach a write of the "
+        "stack has the contract `requires/ensures: non-empty, bottom node ROOT, no other ROOT`; for "
+        f"{3 + len(c01_stack.VERIFIED) + 4} of them (_parser_push with its exact effect, _parser_pop, "
+        "close_begline_lists, process_text, parse_encoded, the two attribute checkers and "
+        f"{len(c01_stack.VERIFIED)} token handlers incl. text_fn, tag_fn, magic_fn) the real body is verified against "
+        "it: every ctx.parser_stack[i] / .pop() is in range, every _parser_pop call has two nodes on the stack, every "
+        "_parser_push pushes a non-ROOT kind, loops by invariant; consequently parse_encoded's closing loop leaves "
+        "exactly the root and its `assert len(ctx.parser_stack) == 1` cannot fail. "
+        f"{len(c01_stack.ASSUMED) + len(c01_stack.ASSUMED_OTHER)} functions keep an ASSUMED contract (listed under "
+        "assumptions with the obligation local reasoning cannot discharge): they are covered by the bounded tier only. "
+        "Syntactic side conditions: the call graph towards the stack stays inside the contracted set, tokenops holds "
+        "only contracted handlers. NOT proved: absence of other exceptions in the handlers, tree shape beyond the "
+        "children lists, the tokenizer regexes. "
         "B (bounded, not counted as proved): Wtp.parse with the whole statement as run-time postcondition.")
-    rep.assumptions += ["_finalize_expand returns a str", "token handlers / tokenizer are unverified (bounded tier only)",
+    rep.assumptions += [f"assumed stack contract of {h}: {w}" for h, w in
+                        list(c01_stack.ASSUMED.items()) + list(c01_stack.ASSUMED_OTHER.items())]
+    rep.assumptions += ["NodeKind members, the kind-set constants, SUBTITLE_TO_KIND and KIND_TO_LEVEL are read from the "
+                        "module source (dict display / comprehension plus module-level item assignments)",
+                        "assert statements other than the one named are not checked in the stack contracts",
+                        "_finalize_expand returns a str", "tokenizer is unverified (bounded tier only)",
                         "#invoke pages are skipped when they would start the Lua sandbox (libraries absent offline)"]
     return rep.finish(replayer=replay, expected_min_functions=len(cs))
 
